@@ -455,7 +455,10 @@ pub fn bulk(ctx: &explore::Ctx) {
     let n = n as usize;
     let tail = ctx.pick("then", 4);
     let chunk = [Chunk::Full, Chunk::AlwaysHalf][ctx.pick("device-chunking", 2)];
-    ctx.describe(|| format!("write({prefix}); write({n}) in one call; then {}; device {chunk:?}", ["flush", "seek(0) write(48) seek(end)", "write of the same size again", "align, physical_size"][tail]));
+    // the bytes written: the usual pattern (never zero), or zeros only - a page of zeros that was never
+    // stored looks like one that was, except that the device is shorter
+    let zeros = ctx.pick("bytes", 2) == 1;
+    ctx.describe(|| format!("[{}] write({prefix}); write({n}) in one call; then {}; device {chunk:?}", if zeros { "zero bytes" } else { "pattern bytes" }, ["flush", "seek(0) write(48) seek(end)", "write of the same size again", "align, physical_size"][tail]));
     let dev = Dev::empty();
     dev.with(|s| s.chunk = chunk);
     let view = dev.handle();
@@ -463,7 +466,7 @@ pub fn bulk(ctx: &explore::Ctx) {
         let mut w = PagedWriter::new(dev).map_err(|e| format!("new: {e}"))?;
         let mut r = Ref { data: Vec::new(), cur: 0, gen: 0 };
         let mut put = |w: &mut PagedWriter<Dev>, r: &mut Ref, n: usize| -> Result<(), String> {
-            let bytes: Vec<u8> = (0..n).map(|i| fill(r.cur + i, r.gen)).collect();
+            let bytes: Vec<u8> = (0..n).map(|i| if zeros { 0 } else { fill(r.cur + i, r.gen) }).collect();
             if r.data.len() < r.cur + n {
                 r.data.resize(r.cur + n, 0);
             }
